@@ -327,3 +327,56 @@ def gen_run_cases(rng, tier, component="s_loopyrun"):
         n = rng.choice([15, 30, 60])
         ops = Walk(rng, server, PROFILES[prof], wild, run=True).run(n)
         yield Case(component, ops, "run-%s-%s-%s-%d" % (prof, "s" if server else "c", "wild" if wild else "disc", k))
+
+
+def gen_srv_cases(rng, tier, component="s_srvord"):
+    """Cases for the T2 component s_srvord: a real http2Server over net.Pipe; ops are peer frames and handler calls."""
+    n_cases = {"quick": 60, "thorough": 1500, "search": 600}[tier]
+    fixed = [
+        ("srv-basic", ["open 1 0 h", "write 1 100", "write 1 70000", "write 1 70000", "status 1 0", "pwu 1 100000", "pwu 0 200000", "pwu 1 100000",
+                       "open 3 0 h", "status 3 5", "open 5 0 h", "pdata 5 0 1", "write 5 10", "status 5 0"]),
+        ("srv-starved-trailers", ["pset 10", "open 1 0 h", "write 1 100", "status 1 0", "pwu 1 50", "pwu 1 50", "open 3 0 h", "write 3 100",
+                                  "status 3 0", "prst 3 8", "pwu 3 1000", "pset 65535", "open 5 0 h", "write 5 20", "pset 0", "write 5 20",
+                                  "status 5 0", "pset 100"]),
+        # handlers that answer DeadlineExceeded when their context expires, racing with the transport's own deadline timer
+        ("srv-deadline", ["open %d 100 d" % i for i in (1, 3, 5, 7, 9, 11)] + ["write 1 10", "write 3 10", "sleep 100", "sleep 1"]),
+        ("srv-deadline-blocked", ["pset 5", "open 1 50 d", "write 1 100", "open 3 50 h", "write 3 100", "sleep 50", "sleep 1", "status 3 4", "pwu 3 1000"]),
+    ]
+    for tag, ops in fixed:
+        yield Case(component, ops, "fixed-" + tag)
+    for k in range(n_cases):
+        r = rng
+        ops = []
+        nxt = 1
+        live = []
+        if r.random() < 0.5:
+            ops.append("pset %d" % r.choice([0, 5, 100, 1000, 16384, 65535, 1 << 20]))
+        for _ in range(r.choice([10, 20, 40])):
+            x = r.random()
+            if x < 0.15 or not live:
+                to = r.choice([0, 0, 0, 20, 50])
+                mode = "d" if (to and r.random() < 0.6) else "h"
+                ops.append("open %d %d %s" % (nxt, to, mode))
+                live.append(nxt)
+                nxt += 2
+            elif x < 0.45:
+                ops.append("write %d %d" % (r.choice(live), r.choice([0, 1, 10, 100, 1000, 16379, 16384, 40000, 70000])))
+            elif x < 0.55:
+                i = r.choice(live)
+                ops.append("status %d %d" % (i, r.choice([0, 2, 5])))
+                if r.random() < 0.7:
+                    live.remove(i)
+            elif x < 0.75:
+                ops.append("pwu %d %d" % (r.choice([0] + live), r.choice([1, 5, 100, 16384, 65535, 1 << 20])))
+            elif x < 0.83:
+                ops.append("pset %d" % r.choice([0, 5, 100, 1000, 65535, 1 << 20]))
+            elif x < 0.88:
+                i = r.choice(live)
+                ops.append("prst %d 8" % i)
+                live.remove(i)
+            elif x < 0.93:
+                ops.append("pdata %d %d %d" % (r.choice(live), r.choice([0, 10, 1000]), r.choice([0, 1])))
+            else:
+                ops.append("sleep %d" % r.choice([1, 20, 30, 50]))
+        ops += ["pwu 0 %d" % (1 << 24), "pset %d" % (1 << 22), "sleep 60", "sleep 1"]
+        yield Case(component, ops, "srv-%d" % k)
